@@ -269,7 +269,7 @@ pub fn setup_from_json(v: &Value, seed: u64) -> RunSetup {
 }
 
 pub fn opts_to_json(o: &ExecOpts) -> Value {
-    json!({"panic_at": o.panic_at, "log_reads": o.log_reads, "inspect": o.inspect, "lookup_cost": o.lookup_cost})
+    json!({"panic_at": o.panic_at, "log_reads": o.log_reads, "inspect": o.inspect, "lookup_cost": o.lookup_cost, "midrun_every": o.midrun_every, "post_growth": o.post_growth})
 }
 
 pub fn opts_from_json(v: &Value) -> ExecOpts {
@@ -278,6 +278,8 @@ pub fn opts_from_json(v: &Value) -> ExecOpts {
         log_reads: v.get("log_reads").and_then(|x| x.as_bool()).unwrap_or(false),
         inspect: v.get("inspect").and_then(|x| x.as_bool()).unwrap_or(true),
         lookup_cost: v.get("lookup_cost").and_then(|x| x.as_bool()).unwrap_or(false),
+        midrun_every: v.get("midrun_every").and_then(|x| x.as_u64()).map(|x| x as u32),
+        post_growth: v.get("post_growth").and_then(|x| x.as_bool()).unwrap_or(false),
     }
 }
 
